@@ -1007,13 +1007,13 @@ func c14Obligs(tier string) []Oblig {
 	}
 	if tier == "thorough" {
 		tk := []int{0, 1, 2, 3, 4, 5, 6, 7, 8, 9, 10, 11, 12, 13, 14}
-		for vk := 10; vk < nFmtKinds; vk++ {
+		for _, vk := range []int{10, 14, 17, 19, 21, 22, 24, 26, 27, 28, 29, 30, 31, 32, 33, 34, 35, 36, 37, 38, 39, 40, 41, 42, 43, 44, 52, 59, 60} {
 			tk = append(tk, 20+vk)
 		}
 		for _, k := range tk {
 			for w := 0; w < 6; w++ {
 				for p := 0; p < 4; p++ {
-					if k >= 20 && (w == 1 || w == 4 || p == 3) {
+					if k >= 20 && !((w == 0 || w == 3) && (p == 0 || p == 2)) {
 						continue
 					}
 					obs = append(obs, Oblig{Harness: "H_c14w", Args: []int{w, p, k, 1}})
